@@ -10,7 +10,7 @@ import numpy as np
 
 from .. import common as C
 from . import _an
-from .C06 import LD, U, tone, omega_of, hw_bins, viol as _viol, remember, win_opts, ref_window, win_transform
+from .C06 import LD, U, tone, omega_of, hw_bins, viol as _viol, remember, win_opts, ref_window, win_transform, fres_gives
 
 
 def full(P: C.Part) -> bool:
@@ -53,7 +53,11 @@ RULE = ("cases: unit-amplitude tone at fractional bin position m0 (at least 1.00
         "L in {64,100,256,1000,4096,16384} (+ odd and larger lengths in thorough), P in [40,200], order -1, single segment (N=L, olap=0) and "
         "multi-segment records; analysis offsets delta on both sides from 1.0001*sqrt(1+alpha^2) bins (dense over the first side lobes) up to L/4 bins; "
         "plus full-plan analyses of a tone where every bin beyond the main lobe is compared with the single-bin response at the tone. "
-        "distinct by (L, P rounded, side, near/far offset, K class, path); non-trivial = the requested level is above the rounding floor")
+        "The single-bin analysis is requested in every documented way: by segment length `L=`, by resolution `fres=fs/L` and by a resolution "
+        "with NON-integer fs/fres = L + eps (0.05 <= |eps| <= 0.45: the library rounds to L samples and reports r = fres), through the method and "
+        "the module-level wrapper, default / numba / numpy backend; offsets and the tone position are always in bins of fs/L with L the REPORTED "
+        "segment length, and the response is demanded at the frequency that was requested (in Hz). "
+        "distinct by (L, P rounded, side, near/far offset, K class, entry point, request form, backend); non-trivial = the requested level is above the rounding floor")
 
 SLACK_DB = 0.0
 STATS: Dict[str, Any] = {}
@@ -95,10 +99,41 @@ def gen_leak(rng: np.random.Generator, thorough: bool, i: int) -> Dict[str, Any]
         w = _an.window("kaiser", L, P)
         t0, t1 = 2 * np.pi * m0 / L, 2 * np.pi * (m0 + d) / L
         phi = float((np.angle(win_transform(w, t1 + t0)) - np.angle(win_transform(w, t1 - t0))) / 2 + (np.pi if rng.random() < 0.5 else 0.0))
-    return {"kind": "leak", "L": L, "N": N, "P": P, "fs": float(rng.choice([1.0, 2.0, 1000.0, float(10 ** rng.uniform(-2, 4))])),
-            "m0": m0, "phi": phi, "A": float(rng.choice([1.0, 1.0, float(10 ** rng.uniform(-3, 3))])),
-            "deltas": deltas, "olap": 0.0 if not multi else float(rng.choice([0.0, 0.5, float(rng.uniform(0, 0.9))])),
-            "via": str(rng.choice(["method", "func"])), "win": str(rng.choice(["kaiser", "kaiser", "np_kaiser", "sp_kaiser"]))}
+    c = {"kind": "leak", "L": L, "N": N, "P": P, "fs": float(rng.choice([1.0, 2.0, 1000.0, float(10 ** rng.uniform(-2, 4))])),
+         "m0": m0, "phi": phi, "A": float(rng.choice([1.0, 1.0, float(10 ** rng.uniform(-3, 3))])),
+         "deltas": deltas, "olap": 0.0 if not multi else float(rng.choice([0.0, 0.5, float(rng.uniform(0, 0.9))])),
+         "via": str(rng.choice(["method", "func"])), "win": str(rng.choice(["kaiser", "kaiser", "np_kaiser", "sp_kaiser"]))}
+    # how the segment is requested (drawn last, from a child stream, so that the cases above are those of earlier runs)
+    r2 = np.random.default_rng(int(rng.integers(0, 2 ** 62)))
+    c["how"] = str(r2.choice(["L", "L", "fres", "fres-frac", "fres-frac"]))
+    c["backend"] = str(r2.choice(["auto", "auto", "numba", "numpy"]))
+    if c["how"] == "fres-frac":
+        c["q"] = L + float(r2.choice([-1.0, 1.0])) * float(r2.choice([0.4, 0.45, float(r2.uniform(0.05, 0.45)), float(r2.uniform(0.05, 0.45))]))
+        if r2.random() < 0.5 and L >= 256:
+            # a tone at a high bin number: an error of the analysis frequency proportional to the bin number is largest there
+            c["m0"] = float(r2.uniform(max(lo, 0.6 * hi), hi))
+            c["deltas"] = [math.copysign(min(abs(d), (hi - c["m0"]) if d > 0 else (c["m0"] - lo)), d) for d in deltas
+                           if ((hi - c["m0"]) if d > 0 else (c["m0"] - lo)) >= dmin]
+    # one more offset per side on the skirt just outside the main lobe (edge + 0.02 ... 0.3 bins)
+    for side in (1.0, -1.0):
+        room = min(L / 4.0, (hi - c["m0"]) if side > 0 else (c["m0"] - lo))
+        if room >= dmin:
+            c["deltas"] = c["deltas"] + [side * min(max(hw_bins(P) + float(r2.uniform(0.02, 0.3)), dmin), room)]
+    return c
+
+
+def request_kw(c: Dict[str, Any]) -> Dict[str, Any]:
+    """the keyword that selects the segment: `L=`, `fres=fs/L` (integer fs/fres) or `fres=fs/q` with q = L + eps not an integer
+    (the library then uses round(fs/fres) = L samples and reports r = fres).  Falls back to `L=` when the float quotient would not
+    round back to L (a tie / representability corner that is C03's business, not a leakage question)."""
+    L, fs, how = c["L"], c["fs"], c.get("how", "L")
+    if how == "fres" and fres_gives(fs, L):
+        return {"fres": float(fs) / L}
+    if how == "fres-frac":
+        fres = float(fs) / float(c["q"])
+        if fres > 0 and math.isfinite(fres) and abs(float(fs) / fres - L) <= 0.47 and int(round(float(fs) / fres)) == L:
+            return {"fres": fres}
+    return {"L": L}
 
 
 ENVELOPE_DB = 1.5   # known finding D12: on the unchanged code the literal P-1 dB level is missed by up to ~1.2 dB in two corners
@@ -130,15 +165,33 @@ def check_leak(P: C.Part, c: Dict[str, Any]) -> None:
     f0 = m0 * fs / L
     x = tone(N, A, omega_of(f0, fs), c["phi"])
     o = dict(win_opts(c["win"], Pdb), order=-1, olap=c["olap"])
+    if c.get("backend", "auto") != "auto":
+        o["backend"] = c["backend"]
+    kw = request_kw(c)
+    form = "L" if "L" in kw else c["how"]
     sig0 = {"subclaim": "leakage", "path": "single"}
     P.cases += 1
+    P.hit(f"leak.request={form},{c['via']},{c.get('backend', 'auto')}")
     try:
         an = speckit.SpectrumAnalyzer(x, fs, **o)
-        get = (lambda f: an.compute_single_bin(f, L=L)) if c["via"] == "method" else (lambda f: speckit.compute_single_bin(x, fs, f, L=L, **o))
+        get = (lambda f: an.compute_single_bin(f, **kw)) if c["via"] == "method" else (lambda f: speckit.compute_single_bin(x, fs, f, **kw, **o))
         r0 = get(f0)
     except Exception as ex:  # noqa
-        viol(P, f"single-bin analysis of a tone raised {ex!r} (L={L}, N={N}, psll={Pdb})", dict(sig0, raises=True), c)
+        viol(P, f"single-bin analysis of a tone raised {ex!r} (request {kw}, N={N}, psll={Pdb})", dict(sig0, raises=True), c)
         return
+    # the bins of the property are those of the segment length actually used = the reported one
+    Lr = int(np.asarray(r0.L).ravel()[0])
+    deltas = c["deltas"]
+    if Lr != L:
+        P.hit("leak.reported-L-differs")
+        if Lr < 64 or Lr > N:
+            return
+        sc = Lr / L
+        dmin_r, m0r = 1.0001 * hw_bins(Pdb), m0 * sc
+        if min(m0r, Lr / 2 - m0r) < dmin_r:
+            return
+        deltas = [d * sc for d in deltas if abs(d * sc) >= dmin_r and dmin_r <= m0r + d * sc <= Lr / 2 - dmin_r]
+        L, m0 = Lr, m0r
     w = ref_window(c["win"], L, Pdb).astype(LD)
     S1, S2 = float(w.sum()), float((w * w).sum())
     for nm, ob, ex in (("S12", float(r0.S12[0]), S1 * S1), ("S2", float(r0.S2[0]), S2), ("ENBW", float(r0.ENBW[0]), fs * S2 / (S1 * S1))):
@@ -152,7 +205,7 @@ def check_leak(P: C.Part, c: Dict[str, Any]) -> None:
     if not (0.5 * peak <= XX0 <= 2.0 * peak):
         viol(P, f"response at the tone's own frequency is {XX0!r}, expected about (A*S1/2)^2 = {peak!r}", dict(sig0, subclaim="peak"), c)
         return
-    for d in c["deltas"]:
+    for d in deltas:
         if full(P):
             return
         f = (m0 + d) * fs / L
@@ -165,15 +218,15 @@ def check_leak(P: C.Part, c: Dict[str, Any]) -> None:
             continue
         ok, dominated, lim = _judge(P, c, sig0, XX, XX0, Pdb, A, S1, L, omega, K, {"L": L, "P": Pdb, "m0": m0, "delta": d, "K": K})
         if not dominated:
-            P.nontrivial.add((L, round(Pdb), d > 0, abs(d) < 1.0001 * hw_bins(Pdb) + 1.5, min(K, 2), c["via"]))
+            P.nontrivial.add((L, round(Pdb), d > 0, abs(d) < 1.0001 * hw_bins(Pdb) + 1.5, min(K, 2), c["via"], form, c.get("backend", "auto")))
         if not ok:
             rel = 10 * math.log10(max(XX, 1e-320) / XX0)
-            viol(P, f"Kaiser psll={Pdb:.2f} dB, L={L}, tone at bin {m0:.4f}, analysed {d:+.4f} bins away (main lobe half-width {hw_bins(Pdb):.3f}): response is "
+            viol(P, f"Kaiser psll={Pdb:.2f} dB, L={L} (requested by {kw}, {c['via']}), tone at bin {m0:.4f}, analysed at {f!r} Hz = {d:+.4f} bins away (main lobe half-width {hw_bins(Pdb):.3f}): response is "
                     f"{rel:.2f} dB relative to the response at the tone, required <= {-(Pdb - 1):.2f} dB (rounding floor included)",
-                 dict(sig0, side="+" if d > 0 else "-"), c, delta=d, observed_db=rel, XX=XX, XX0=XX0)
+                 dict(sig0, side="+" if d > 0 else "-", request=form), c, delta=d, observed_db=rel, XX=XX, XX0=XX0)
             if sig0.get("envelope") == "beyond":
                 break
-    P.sample({"op": "leak", **{k: c[k] for k in ("L", "N", "P", "fs", "m0", "via")}, "K": K, "offsets": [round(d, 3) for d in c["deltas"][:4]]}, cap=3)
+    P.sample({"op": "leak", **{k: c[k] for k in ("L", "N", "P", "fs", "m0", "via")}, "request": kw, "K": K, "offsets": [round(d, 3) for d in c["deltas"][:4]]}, cap=3)
 
 
 # ================================================================ full-plan leakage
